@@ -13,9 +13,20 @@ import LitexProofs.Fhdl.LowerCorrect
                            (TRUSTED formalisation; the sandbox has no Verilog simulator)
     `storeF/assignV`      bits stored into an `lw`-bit target by `Evaluator.assign` / by the Verilog assignment
   The property at full strength is FALSE on the code that exists: Migen evaluates over unbounded integers,
-  Verilog in the context width, and the printer mis-reports signedness in three places.  It is therefore proved
+  Verilog in the context width (intermediate overflow, inherent to the two languages).  It is therefore proved
   under the decidable side condition `Fits` (`_partial`), the excluded region is exhibited by concrete
   counterexamples, and a static sufficient condition (`staticallyFits`, a value-range analysis) is proved sound.
+
+  The printer/simulator defects found by the first build of this check (signed constants printed as unsigned
+  literals, comparison and slice results reported signed, 1-bit signed slices printed bare, full-width slices of
+  signed/negative nodes dropped by the lowerer, unmasked `Mux` condition in the simulator, `output reg` ports
+  without initialiser) are repaired in /repo; the model follows the repaired code, their former negative
+  witnesses are positive regression examples below, and the side conditions that only excluded them are gone:
+    * `fitsP`/`leafOk` no longer exclude slices of signed 1-bit signals;
+    * `fitsV` no longer asks the value of a `?:` condition to be representable in its Verilog width — only
+      `condOk` (zero in the Migen width iff zero in the Verilog width; trivial when the widths agree);
+    * with the repaired sign flags `Fits`/`staticallyFits` now HOLD on `(a < -1)`, `(a < b) + c`, `x[0:4] + t`
+      (the definitions did not change, the printed text did).
 -/
 namespace Litex.C01
 
@@ -150,9 +161,10 @@ theorem static_block_sound (ss : Stmts) (h : sfitsSs ss = true) :
 
 /-! ## Lowering (`_ComplexSliceLowerer` index arithmetic)
 
-  `sliceVal ρ e st len` = value of `_Slice(e, st, st+len)`.  NOT covered (and false, see the findings): the final
-  step of `visit_Slice` that drops the slice altogether when it covers the resolved node exactly — a Migen slice
-  is an unsigned zero-extending view, the bare node is not when it is signed or can be negative (`~x`, `a - b`). -/
+  `sliceVal ρ e st len` = value of `_Slice(e, st, st+len)`.  The final step of `visit_Slice` drops the slice
+  altogether when it covers the resolved node exactly; a Migen slice is an unsigned zero-extending view, the bare
+  node is not when it is signed or can be negative (`~x`, `a - b`), so (since the fix) only unsigned signals,
+  `Cat`s and `Replicate`s are dropped (`dropsSlice`, checked against the real `visit_Slice` on every run). -/
 
 /-- **lowerSliceCat_correct**: descending into the `Cat` element that contains the slice (with the start index
     made relative to that element, repeatedly through nested `Cat`s) does not change the slice's value. -/
@@ -170,10 +182,22 @@ theorem lowerSliceReplicate_correct (ρ : Env) (e : Expr) (st len : Nat) (hl : 0
 /-- The slice really moves: `Cat(a[4], b[4], c[4])[5:7]` is resolved to `b[1:3]`. -/
 example : lowerCat (.cat [.sig 0 4 false, .sig 1 4 false, .sig 2 4 false]) 5 2 = (.sig 1 4 false, 1) := rfl
 
-/-- Negative witness for the dropped full-width slice (finding): `(~z)[0:1]` is 1 for z = 0, the bare `~z` the
-    lowerer leaves behind is −1, i.e. 15 in a 4-bit target. -/
-example : sliceVal (envL [0]) (.op1 .not (.sig 0 1 false)) 0 1 = 1 ∧
-          storeF (envL [0]) 4 (.op1 .not (.sig 0 1 false)) = 15 := by decide
+/-- **lowerSliceDrop_correct**: the last step of `visit_Slice` drops the slice altogether when it covers the
+    resolved node exactly and that node is an unsigned `Signal`, a `Cat` or a `Replicate` (`dropsSlice`); for
+    every valuation with in-range signal values the bare node then has the value of the slice. -/
+theorem lowerSliceDrop_correct (ρ : Env) (e : Expr) (st len : Nat) (h : dropsSlice e st len = true)
+    (hρ : envOk ρ e = true) : sliceVal ρ e st len = evalF ρ e :=
+  lowerDrop_correct ρ e st len h hρ
+
+example : dropsSlice (.cat [.sig 0 4 true, .sig 1 4 false]) 0 8 = true := rfl
+
+/-- Regression (former findings C01-signed-full-slice-dropped / C01-full-slice-dropped-negative-operand): full-width
+    slices of a signed signal and of `~z` are NOT dropped any more — and must not be: `(~z)[0:1]` is 1 for z = 0,
+    the bare `~z` is −1, i.e. 15 in a 4-bit target; `x[0:4]` of a signed `x = −1` is 15, the bare `x` 255 in 8 bits. -/
+example : dropsSlice (.op1 .not (.sig 0 1 false)) 0 1 = false ∧ dropsSlice (.sig 0 4 true) 0 4 = false ∧
+          sliceVal (envL [0]) (.op1 .not (.sig 0 1 false)) 0 1 = 1 ∧
+          storeF (envL [0]) 4 (.op1 .not (.sig 0 1 false)) = 15 ∧
+          sliceVal (envL [-1]) (.sig 0 4 true) 0 4 = 15 ∧ storeF (envL [-1]) 8 (.sig 0 4 true) = 255 := by decide
 
 /-! ## Layer 2 — modules
 
@@ -182,8 +206,9 @@ example : sliceVal (envL [0]) (.op1 .not (.sig 0 1 false)) 0 1 = 1 ∧
   widths, have distinct case keys and satisfy `fitsSs` in the given state; a group printed as a continuous
   `assign` is a single whole-signal assignment.  Combinational settling is, on both sides, re-evaluation until
   nothing changes (`settleF` = `Simulator._commit_and_comb_propagate`; for Verilog a fair schedule of the event
-  queue).  Not covered by a theorem: the power-up state (the text's `reg x = init` initialisers equal `Signal.reset`
-  except for `output reg` ports and `wire`s, which carry none — checked by the correspondence, see findings). -/
+  queue).  Not covered by a theorem: the power-up state (every `reg`, also an `output reg` port since the fix of
+  C01-output-reg-no-initialiser, carries the initialiser `= Signal.reset`; `wire`s carry none and settle —
+  checked declaration by declaration by the correspondence). -/
 
 /-- One comb evaluation + commit of the printed module = one `execute(comb)` + `commit` of the simulator. -/
 theorem module_comb_step_equiv_partial (f : FModule) (aF aV : Array Int) (h : StRel f.sigs aF aV)
@@ -273,7 +298,7 @@ example : staticallyFits
 example : staticallyFits (.op2 .lt (.sig 0 8 true) (.sig 1 4 false)) 1 = true := by decide
 
 example : printE (.op2 .lt (.sig 0 8 true) (.sig 1 4 false)) =
-    (.bin .lt (.id 0 8 true) (.signed (.concat [.lit 1 false 0, .id 1 4 false])), true) := rfl
+    (.bin .lt (.id 0 8 true) (.signed (.concat [.lit 1 false 0, .id 1 4 false])), false) := rfl
 
 /-! ### Negative witnesses (the excluded region is not empty: the full statement fails there) -/
 
@@ -295,33 +320,97 @@ example :
     let ρ := envL [128, 128]
     envOk ρ e = true ∧ storeF ρ 8 e = 128 ∧ assignV ρ 8 (printE e).1 = 0 ∧ Fits ρ e 8 = false := by decide
 
-/-- KNOWN DEFECT (F6): signed constants are printed without `s`.  `a < -1` with `a` 8-bit signed, a = 5:
-    the text is `(a < -1'd1)`, an UNSIGNED comparison in Verilog (5 < 255 = 1); the simulator gives 0. -/
+/-! ### Regression examples: the witnesses of the repaired findings now evaluate equal on both sides, satisfy
+    `Fits` (the printer theorem covers them) and — where no value is involved — fit statically -/
+
+/-- (was F6 / C01-signed-const-unsigned-literal) `a < -1` with `a` 8-bit signed, a = 5: the text is now
+    `(a < 1'sd1)`, a SIGNED comparison (5 < −1 = 0) as in the simulator; it was `(a < -1'd1)`, 5 < 255 = 1. -/
 example :
     let e : Expr := .op2 .lt (.sig 0 8 true) (.const (-1) 1 true)
     let ρ := envL [5]
-    envOk ρ e = true ∧ storeF ρ 1 e = 0 ∧ assignV ρ 1 (printE e).1 = 1 ∧ Fits ρ e 1 = false := by decide
+    envOk ρ e = true ∧ storeF ρ 1 e = 0 ∧ assignV ρ 1 (printE e).1 = 0 ∧ Fits ρ e 1 = true ∧
+      staticallyFits e 1 = true := by decide
 
 example : (printE (.op2 .lt (.sig 0 8 true) (.const (-1) 1 true))).1 =
-    .bin .lt (.id 0 8 true) (.un .neg (.lit 1 false 1)) := rfl
+    .bin .lt (.id 0 8 true) (.lit 1 true 1) := rfl
+
+/-- What the text was before the repair, and why it was wrong: `(a < -1'd1)` is an unsigned comparison. -/
+example : assignV (envL [5]) 1 (.bin .lt (.id 0 8 true) (.un .neg (.lit 1 false 1))) = 1 := by decide
 
 /-- Why the obvious repair of F6 (`-4'sd8` instead of `-4'd8`) would be wrong: the most negative value of a
     width, extended to a wider signed context, negates to the POSITIVE value (`-4'sd8` in 8 bits is +8);
-    printing the two's-complement pattern (`4'sd8`, i.e. 1000 = −8) is right in every context. -/
+    printing the two's-complement pattern (`4'sd8`, i.e. 1000 = −8) is right in every context — which is what
+    `printConst` (and the repaired `_generate_constant`) does. -/
 example : evalV (fun _ => 0) 8 true (.un .neg (.lit 4 true 8)) = 8 ∧
           evalV (fun _ => 0) 8 true (.lit 4 true 8) = tn 8 (-8) := by decide
 
-/-- Printer sign flag of a comparison (`s1 or s2`) is wrong (Verilog: unsigned): `(a < b) + c`, all signed
-    8 bit, into 16 bits with c = −1, a ≥ b: simulator 0xFFFF, Verilog 0x00FF (c is zero-extended). -/
+example : (printE (.const (-8) 4 true)).1 = .lit 4 true 8 := rfl
+
+/-- `a + (-8 as 4-bit signed constant)` into 16 bits fits statically (all inputs). -/
+example : staticallyFits (.op2 .add (.sig 0 8 true) (.const (-8) 4 true)) 16 = true := by decide
+
+/-- Case items keep the unsigned form `-1'd1` (`printConstU`): next to an unsigned item the `case` is evaluated
+    in an unsigned context, where a signed literal `1'sd1` would be ZERO-extended (0001) and match x = 1 instead
+    of x = −1 (1111); `-1'd1` is 1111 in 4 bits. -/
+example : evalV (fun _ => 0) 4 false (printConstU (-1) 1) = 15 ∧ evalV (fun _ => 0) 4 false (.lit 1 true 1) = 1 := by
+  decide
+
+/-- `Case(x, {-1: r <= 1, 0: r <= 2})`, x 4-bit signed: both sides select the first item for x = −1 and nothing
+    for x = 1; the side condition holds. -/
+example :
+    let x : Expr := .sig 0 4 true
+    let r : Expr := .sig 1 2 false
+    let ss : Stmts := .cons (.case x (.cons (-1) 1 true (.cons (.assign r (.const 1 1 false)) .nil)
+                                     (.cons 0 1 false (.cons (.assign r (.const 2 2 false)) .nil) .nil)) false .nil) .nil
+    fitsSs (envL [-1, 0]) ss = true ∧ execFs (envL [-1, 0]) ss [] = [(1, 1)] ∧
+    execVs (envL [-1, 0]) (printStmts ss) [] = [⟨1, 0, 2, 1⟩] ∧
+    fitsSs (envL [1, 0]) ss = true ∧ execFs (envL [1, 0]) ss [] = [] ∧ execVs (envL [1, 0]) (printStmts ss) [] = [] := by
+  decide
+
+/-- (was C01-comparison-reported-signed) `(a < b) + c`, all signed 8 bit, into 16 bits with c = −1, a ≥ b: the
+    comparison is now reported unsigned and promoted, `$signed({1'd0, (a < b)}) + c`: both sides 0xFFFF (the
+    text `((a < b) + c)` zero-extended c: 0x00FF).  Fits statically, i.e. for all inputs. -/
 example :
     let e : Expr := .op2 .add (.op2 .lt (.sig 0 8 true) (.sig 1 8 true)) (.sig 2 8 true)
     let ρ := envL [0, 0, -1]
-    envOk ρ e = true ∧ storeF ρ 16 e = 65535 ∧ assignV ρ 16 (printE e).1 = 255 ∧ Fits ρ e 16 = false := by decide
+    envOk ρ e = true ∧ storeF ρ 16 e = 65535 ∧ assignV ρ 16 (printE e).1 = 65535 ∧ Fits ρ e 16 = true ∧
+      staticallyFits e 16 = true := by decide
 
-/-- `Mux(~b, x, y)`: the simulator tests the unbounded `~b ∈ {−1, −2}` (always true), Verilog the 1-bit `~b`. -/
+example : assignV (envL [0, 0, -1]) 16 (.bin .add (.bin .lt (.id 0 8 true) (.id 1 8 true)) (.id 2 8 true)) = 255 := by
+  decide
+
+/-- (was C01-slice-reported-signed) `x[0:4] + t`, x and t signed 8 bit, t = −1, into 16 bits: the part-select is
+    now reported unsigned and promoted: both sides 0xFFFF (was 0x00FF).  Fits statically. -/
+example :
+    let e : Expr := .op2 .add (.slice (.sig 0 8 true) 0 4) (.sig 1 8 true)
+    let ρ := envL [0, -1]
+    envOk ρ e = true ∧ storeF ρ 16 e = 65535 ∧ assignV ρ 16 (printE e).1 = 65535 ∧ Fits ρ e 16 = true ∧
+      staticallyFits e 16 = true := by decide
+
+/-- (was C01-signed-1bit-noslice) `x[0]` of a 1-bit signed `x = −1` into 4 bits: the text is now `{x}` (unsigned
+    view): both sides 1; the bare `x` sign-extended to 15.  Fits statically. -/
+example :
+    let e : Expr := .slice (.sig 0 1 true) 0 1
+    let ρ := envL [-1]
+    storeF ρ 4 e = 1 ∧ assignV ρ 4 (printE e).1 = 1 ∧
+      assignV ρ 4 (.id 0 1 true) = 15 ∧ Fits ρ e 4 = true ∧ staticallyFits e 4 = true := by decide
+
+example : (printE (.slice (.sig 0 1 true) 0 1)).1 = .concat [.id 0 1 true] := rfl
+
+/-- (was C01-mux-condition-unmasked) `Mux(~b, x, y)`, b = 1: the simulator now masks the condition to its width
+    (`~b & 1 = 0`) and selects `y` like the 1-bit Verilog `~b` (it tested the unbounded `~b ∈ {−1, −2}`, always
+    true).  Fits statically: the former requirement that the condition's VALUE be representable is gone. -/
 example :
     let e : Expr := .mux (.op1 .not (.sig 0 1 false)) (.sig 1 4 false) (.sig 2 4 false)
     let ρ := envL [1, 3, 9]
+    envOk ρ e = true ∧ storeF ρ 4 e = 9 ∧ assignV ρ 4 (printE e).1 = 9 ∧ Fits ρ e 4 = true ∧
+      staticallyFits e 4 = true := by decide
+
+/-- Where `condOk` still bites (intermediate overflow, stays excluded): `Mux(a + b, x, y)` with a = b = 8 (4 bit):
+    the simulator tests the 5-bit sum 16 (true), Verilog the 4-bit sum 0 (false). -/
+example :
+    let e : Expr := .mux (.op2 .add (.sig 0 4 false) (.sig 1 4 false)) (.sig 2 4 false) (.sig 3 4 false)
+    let ρ := envL [8, 8, 3, 9]
     envOk ρ e = true ∧ storeF ρ 4 e = 3 ∧ assignV ρ 4 (printE e).1 = 9 ∧ Fits ρ e 4 = false := by decide
 
 end Litex.C01
